@@ -31,7 +31,7 @@ def mc_only_instances(ctx):
     """Larger universes: exhaustive invariant/property check only (graph too big to print)."""
     if ctx.tier == "thorough":
         return [("groups6", 2, 9), ("groups6", 3, 9)]
-    return [("groups6", 2, 0)]
+    return []   # design-level only (cannot change with /repo); the quick tier keeps its time for the replay
 
 
 # vacuity guards: (instance, Thresh, MaxClosed, reachability invariant expected to be VIOLATED)
